@@ -1238,7 +1238,6 @@ func isFloat(t types.Type) bool {
 	return ok && b.Info()&types.IsFloat != 0
 }
 
-
 // c05UpscaleIsRescalePlus: Amount.Upscale(n) returns receiver.Rescale(<receiver exponent> + n).
 func c05UpscaleIsRescalePlus(p *core.Program) bool {
 	fd := p.RawFunc("num", "Amount", "Upscale")
